@@ -203,13 +203,18 @@ func (gen *generator) addTypeDefsToModule() {
 	}
 	natsort.Strings(typeNames)
 	if len(typeNames) > 0 {
-		gen.m.TypeDefs = make([]types.Type, len(typeNames))
-		for i, name := range typeNames {
+		gen.m.TypeDefs = make([]types.Type, 0, len(typeNames))
+		for _, name := range typeNames {
+			if _, isAlias := gen.old.typeDefs[name].Typ().(*ast.NamedType); isAlias {
+				// A type alias is the type it names, which is listed under its
+				// own name.
+				continue
+			}
 			def, ok := gen.new.typeDefs[name]
 			if !ok {
 				panic(fmt.Errorf("unable to locate type identifier %q", enc.TypeName(name)))
 			}
-			gen.m.TypeDefs[i] = def
+			gen.m.TypeDefs = append(gen.m.TypeDefs, def)
 		}
 	}
 }
